@@ -82,6 +82,10 @@ func (a *Operator) assemble(assembleParser *parser.Parser, input *bytes.Buffer) 
 			}
 		}
 	}
+	if err := fileScanner.Err(); err != nil {
+		logger.Error().Err(err).Msg("failed to read parsed input")
+		return "", err
+	}
 
 	processor, err := processorStack.top()
 	if err != nil {
